@@ -351,4 +351,109 @@ theorem hinv_init (p : Params) (bal : List (Nat × Int)) (h t : Nat) :
     HInv { bal := bal, params := p, height := h, time := t } :=
   ⟨(fun _ hx => nomatch hx), (fun _ hm => nomatch hm), (fun _ hx => nomatch hx)⟩
 
+-- ---------------------------------------------------------------------------------------------
+-- histories
+
+theorem commit_not_halt (s : State) (r : Option State) : (commit s r).2 ≠ .halt := by
+  unfold commit
+  cases r <;> exact fun e => nomatch e
+
+/-- only an end-block can halt -/
+theorem step_msg_not_halt (s : State) (op : Op) (hne : op ≠ .endBlock) : (step s op).2 ≠ .halt := by
+  cases op with
+  | marketAdd c tk u st en o stt => exact commit_not_halt _ _
+  | marketUpdate tk u st en stt => exact commit_not_halt _ _
+  | marketResolve tk u ts stt w => exact commit_not_halt _ _
+  | deposit c tk m a pd =>
+    simp only [step, houseDeposit]
+    cases houseDepositO s c tk m a pd <;> exact fun e => nomatch e
+  | withdraw c tk m i md a pd => exact commit_not_halt _ _
+  | wager c tk u a pl => exact commit_not_halt _ _
+  | grant g e k l x => exact fun e => nomatch e
+  | revoke g e k => exact fun e => nomatch e
+  | send a b x =>
+    simp only [step]
+    split
+    · exact fun e => nomatch e
+    · exact commit_not_halt _ _
+  | setParams p =>
+    simp only [step]
+    split <;> exact fun e => nomatch e
+  | endBlock => exact absurd rfl hne
+  | newBlock h t => exact fun e => nomatch e
+
+/-- the state is solvent at the start of every end-block of the history -/
+def solventAtEnds : State → List Op → Prop
+  | _, [] => True
+  | s, op :: rest => (op.isEnd = true → Solvent s) ∧ solventAtEnds (step s op).1 rest
+
+/-- C05: through a history signed by user accounts in which the state is solvent whenever an end-block starts, no
+    end-block halts, and reachability and well-formedness are kept -/
+theorem run_no_halt : ∀ (ops : List Op) (s : State), Reach s → HInv s → signedOk ops = true → solventAtEnds s ops →
+    noHalt s ops = true ∧ Reach (run s ops) ∧ HInv (run s ops) := by
+  intro ops
+  induction ops with
+  | nil => intro s hR hH _ _; exact ⟨rfl, hR, hH⟩
+  | cons op rest ih =>
+    intro s hR hH hwf hsol
+    have hwf1 : op.userSigned' := signedOk_spec _ hwf op (List.mem_cons_self ..)
+    have hwf2 : signedOk rest = true := signedOk_of (fun o ho => signedOk_spec _ hwf o (List.mem_cons_of_mem _ ho))
+    have hR' := step_reach s op hR hwf1
+    obtain ⟨hs1, hs2⟩ := hsol
+    have hstep : (step s op).2 ≠ .halt ∧ HInv (step s op).1 := by
+      by_cases hend : op = .endBlock
+      · subst hend
+        obtain ⟨s', he, hS'⟩ := endBlockO_ok ⟨hR, hH, hs1 rfl⟩
+        have : step s .endBlock = (s', .ok) := by
+          show endBlock s = _
+          unfold endBlock
+          rw [he]
+        rw [this]
+        exact ⟨(fun e => nomatch e), hS'.wf⟩
+      · exact ⟨step_msg_not_halt s op hend, step_hinv_msg s op hR.inv hH hend⟩
+    obtain ⟨a1, a2, a3⟩ := ih (step s op).1 hR' hstep.2 hwf2 hs2
+    refine ⟨?_, a2, a3⟩
+    simp only [noHalt, Bool.and_eq_true, bne_iff_ne, ne_eq]
+    exact ⟨hstep.1, a1⟩
+
+-- ---------------------------------------------------------------------------------------------
+-- Boolean checkers for concrete states
+
+/-- `Solvent`, computable -/
+def solventB (s : State) : Bool :=
+  s.bets.all (fun x => !x.isOpen || (decide (0 ≤ x.fee) && x.fulfs.all (fun f => decide (0 ≤ f.bet) && decide (0 ≤ f.profit)))) &&
+  s.books.all (fun b => b.parts.all (fun p => p.isSettled ||
+    (decide (0 ≤ p.fee) && decide (promisedW s b.uid p.idx ≤ p.liq + p.actualProfit))))
+
+theorem solventB_spec {s : State} (h : solventB s = true) : Solvent s := by
+  unfold solventB at h
+  simp only [Bool.and_eq_true, List.all_eq_true, Bool.or_eq_true, Bool.not_eq_true', decide_eq_true_eq] at h
+  refine ⟨?_, ?_⟩
+  · intro x hx ho
+    rcases h.1 x hx with h' | h'
+    · rw [ho] at h'; cases h'
+    · exact ⟨h'.1, fun f hf => h'.2 f hf⟩
+  · intro b hb p hp hun
+    rcases h.2 b hb p hp with h' | h'
+    · rw [hun] at h'; cases h'
+    · exact h'
+
+/-- `solventAtEnds`, computable -/
+def solventAtEndsB : State → List Op → Bool
+  | _, [] => true
+  | s, op :: rest => (!op.isEnd || solventB s) && solventAtEndsB (step s op).1 rest
+
+theorem solventAtEndsB_spec : ∀ (ops : List Op) (s : State), solventAtEndsB s ops = true → solventAtEnds s ops := by
+  intro ops
+  induction ops with
+  | nil => intro s _; trivial
+  | cons op rest ih =>
+    intro s h
+    simp only [solventAtEndsB, Bool.and_eq_true, Bool.or_eq_true, Bool.not_eq_true'] at h
+    refine ⟨?_, ih _ h.2⟩
+    intro he
+    rcases h.1 with h' | h'
+    · rw [he] at h'; cases h'
+    · exact solventB_spec h'
+
 end Sge.Core
